@@ -58,7 +58,7 @@ def floors(tier):
     k = 1 if tier == "quick" else 6
     cl = {f"run:{a}": 6 * k for a in ALGOS}
     cl.update({f"budget:{v}": 15 * k for v in KINDS.values()})
-    cl.update({"budget:pair": 8 * k, "stopped-by:maximum_iterations": 8 * k, "stopped-by:maximum_test_executions": 8 * k,
+    cl.update({"budget:pair": 6 * k, "stopped-by:maximum_iterations": 8 * k, "stopped-by:maximum_test_executions": 8 * k,
                "stopped-by:maximum_statement_executions": 8 * k, "iteration-boundary-checked": 150 * k,
                "crossed-within-iteration": 3 * k})
     for a in ALGOS:
